@@ -124,7 +124,11 @@ class SSCChart(BaseChart):
                 param = MSDParameter((key, value))
             file.write(f"{param}\n")
 
-        notes_param = MSDParameter((notes_key, self[notes_key]))
+        notes = self[notes_key]
+        if notes is None:
+            notes_param = MSDParameter((notes_key,))
+        else:
+            notes_param = MSDParameter((notes_key, notes))
         file.write(f"{notes_param}\n\n")
 
 
